@@ -54,7 +54,10 @@ def reversal(chk, P):
             chk.judge(re.sub(r"\D", "", a[1]) == re.sub(r"\D", "", a[2]) and re.sub(r"\D", "", a[3]) == re.sub(r"\D", "", a[4]) and re.sub(r"\D", "", a[1]) != re.sub(r"\D", "", a[3]),
                       "REVERSE", "transform-geometry-pairing:%s" % a[1], f.loc, "transform and geometry passed together belong to the same surface: %s" % a[1:5])
         # which one is under mustReverse
-        flag = [d["var"] for _, _, d in f.events(lambda d: d["k"] == "decl" and d["ty"] == "bool" and "everse" in d["var"])]
+        # the reversal flag is the bool handed to getContactTracker as its out-argument (identified by that role, not by its name)
+        gct = [e for _, _, e in f.calls() if str(e.get("fn", "")).endswith("::getContactTracker") and len(call_args(e)) >= 3]
+        bools = {d["var"] for _, _, d in f.events(lambda d: d["k"] == "decl" and d["ty"] == "bool")}
+        flag = sorted({var_of(call_args(e)[2]) for e in gct if var_of(call_args(e)[2]) in bools})
         chk.judge(len(flag) == 1, "REVERSE", "flag-variable", f.loc, "reversal flag variable found")
         if flag:
             tr = guard_blocks(f, lambda c: c == ["var", flag[0]], 0)
@@ -66,15 +69,17 @@ def reversal(chk, P):
                 ra = [sx_str(x) for x in call_args(rev[0][1])]
                 chk.judge(re.sub(r"\D", "", ra[1]) == "2", "REVERSE", "reversed-call-passes-surface-2-first", f.loc, "under mustReverse surface 2's (transform, geometry) come first")
             # stored indices follow the same flag
-            ts = {d["var"]: d["init"] for _, _, d in f.events(lambda d: d["k"] == "decl" and d["var"] in ("trackSurf1", "trackSurf2"))}
-            ok = len(ts) == 2
-            for nm, want_true in (("trackSurf1", "2"), ("trackSurf2", "1")):
+            # the tracker-order surface indices are the two arguments of Contact::setSurfaces (identified by that role)
+            ss = [e for _, _, e in f.calls() if str(e.get("fn", "")).endswith("::setSurfaces")]
+            tsn = [var_of(x) for x in call_args(ss[0])] if len(ss) == 1 else []
+            ts = {d["var"]: d["init"] for _, _, d in f.events(lambda d: d["k"] == "decl" and d["var"] in tsn)}
+            ok = len(ts) == 2 and len(tsn) == 2 and tsn[0] != tsn[1]
+            for nm, want_true in zip(tsn, ("2", "1")):
                 x = ts.get(nm)
                 ok = ok and isinstance(x, list) and x[0] == "cond" and x[1] == ["var", flag[0]] and re.sub(r"\D", "", sx_str(x[2])) == want_true and \
                     re.sub(r"\D", "", sx_str(x[3])) == ("1" if want_true == "2" else "2")
-            chk.judge(ok, "REVERSE", "stored-surface-indices-follow-flag", f.loc, "trackSurf1/2 = mustReverse ? (index2,index1) : (index1,index2)")
-            ss = [e for _, _, e in f.calls() if str(e.get("fn", "")).endswith("::setSurfaces")]
-            chk.judge(len(ss) == 1 and [var_of(x) for x in call_args(ss[0])] == ["trackSurf1", "trackSurf2"], "REVERSE", "contact-gets-tracker-order-surfaces", f.loc,
+            chk.judge(ok, "REVERSE", "stored-surface-indices-follow-flag", f.loc, "setSurfaces(a, b) with a = mustReverse ? index2 : index1 and b = mustReverse ? index1 : index2")
+            chk.judge(len(ss) == 1 and len(ts) == 2, "REVERSE", "contact-gets-tracker-order-surfaces", f.loc,
                       "the resulting Contact stores the surfaces in the tracker's order")
     # normalisation of the type-id pair
     for nm in ("hasContactTracker", "getContactTracker"):
